@@ -226,10 +226,20 @@ def cli_channel_run(b, data, cfg, in_ch, out_ch, workdir, tag, extra_env=None, t
         with open(inp, "wb") as f:
             f.write(data)
         args.append(inp)
-    elif in_ch == "gz":
+    elif in_ch in ("gz", "gzmulti"):
         inp = os.path.join(workdir, "in-%s.log.gz" % tag)
         with open(inp, "wb") as f:
-            f.write(gzip.compress(data, mtime=0))
+            if in_ch == "gzmulti":
+                # the same bytes as an archive of several members (what `cat a.gz b.gz` or a rotating writer produces), cut at line ends
+                cuts = [i + 1 for i, ch in enumerate(data) if ch == 10]
+                pts = [0] + [c for j, c in enumerate(cuts) if j % max(1, len(cuts) // 3) == 0 and c < len(data)] + [len(data)]
+                pts = sorted(set(pts))
+                for a, b2 in zip(pts, pts[1:]):
+                    f.write(gzip.compress(data[a:b2], mtime=0))
+                if len(pts) < 2:
+                    f.write(gzip.compress(data, mtime=0))
+            else:
+                f.write(gzip.compress(data, mtime=0))
         args.append(inp)
     else:
         stdin_data = data
